@@ -87,3 +87,7 @@ where
     let sample_set = SampleSet::gene(set);
     inner_gene_enrichment(&background, &sample_set)
 }
+
+#[cfg(kani)]
+#[path = "/verif/kani/hypergeom_gene.rs"]
+mod verif_kani;
